@@ -1,1 +1,1 @@
-// none
+// no concrete playback test recorded
